@@ -2,12 +2,12 @@
 # mkextend.sh Cxx "extra text": worktrees + prompt for an extension agent
 P=$1; EXTRA=$2; p=$(echo $P | tr A-Z a-z)
 mkdir -p /work/$P
-[ -d /work/$P/verif ] || git -C /verif worktree add -q -b agent-${P}x /work/$P/verif main
-[ -d /work/$P/repo ] || git -C /repo worktree add -q -b fix-${P}x /work/$P/repo main
+[ -d /work/$P/verif ] || git -C /verif worktree add -q -b agent-${P}${SUFFIX:-x} /work/$P/verif main
+[ -d /work/$P/repo ] || git -C /repo worktree add -q -b fix-${P}${SUFFIX:-x} /work/$P/repo main
 python3 - "$P" "$p" "$EXTRA" <<'PY'
-import sys
+import sys, os
 P, p, extra = sys.argv[1:]
-t = open('/work/prompts/extend_common.md').read().replace('{EXTRA}', extra).replace('{P}', P).replace('{p}', p)
+t = open('/work/prompts/extend_common.md').read().replace('{EXTRA}', extra).replace('{P}r', P + os.environ.get('SUFFIX', 'r')).replace('{P}x', P + os.environ.get('SUFFIX', 'x')).replace('{P}', P).replace('{p}', p)
 open('/work/%s/extend_prompt.md' % P, 'w').write(t)
 PY
 echo /work/$P/extend_prompt.md
